@@ -374,6 +374,9 @@ def run(tier):
     ctx.sensitivity("Sqlite", "MC_Sqlite_dev_CrashKeepsSpilledPages.cfg", "spilled pages that survive the writer's death must violate AtBoundary", "AtBoundary", workers=4)
     ctx.sensitivity("Sqlite", "MC_Sqlite_dev_SessionSkipsEvolution.cfg", "a later session that does not add columns to an existing table must violate OneColumnPerField", "OneColumnPerField", workers=4)
     if thorough:
+        from vf import apalache
+
+        apalache.inductive(ctx, "SqliteCount", "unbounded: counter abstraction of the commit behaviour, every batch size >= 1, every history incl. sessions and a crash")
         ctx.sensitivity("Sqlite", "MC_Sqlite_dev_CloseNoCommit.cfg", "close without commit must violate ClosedCommitted", "ClosedCommitted", workers=4)
         ctx.sensitivity("Sqlite", "MC_Sqlite_dev_CommitOffByOne.cfg", "batch test off by one must violate AtBoundary", "AtBoundary", workers=4)
         ctx.sensitivity("Sqlite", "MC_Sqlite_dev_NoColumnEvolution.cfg", "no column evolution must violate OneColumnPerField", "OneColumnPerField", workers=4)
